@@ -130,6 +130,34 @@ CHECKS = {
             "Process death is modelled on the in-memory transport (real-process tier not built); open finding F15 "
             "(runner tasks of the other simulators keep running during shutdown) excluded by signature.",
             "DESIGN.md 4/C14"),
+    "C11": ("exploration",
+            "model-based testing: Hypothesis-generated programs of scenario-API calls interpreted against the real "
+            "World and a model of accepted data-flows + complete placement x flag x validity table",
+            "Programs (enter/leave world.group(), start with generated model descriptions, connect with valid and "
+            "invalid attribute names and every flag combination) run against the World and a model: ScenarioError "
+            "iff one of the four documented reasons holds; afterwards run() must show values exactly on accepted "
+            "slots, judge cycles by the accepted flows only, and entity_graph edges only from accepted pairs.",
+            "Attribute classes from C12's reference solver; behavioural group scoping (sub-time visibility) is "
+            "judged by C01/C02's monitor with the reference group semantics.",
+            "DESIGN.md 4/C11"),
+    "C15": ("exploration",
+            "complete version table (16 versions x explicit x 5 stub kinds x type) + Hypothesis versions; recorded "
+            "literal requests of stub simulators; differential against a v3 stub",
+            "Each stub (in-process with v3 / v2 / mixed signatures, raw-protocol remote over the in-memory transport) "
+            "is started and run: step has 2 positional arguments iff version < 3, setup_done iff >= 2.2, "
+            "time_resolution iff the signatures accept it, missing type => time-based, ScenarioError iff >= 4 / "
+            "explicit mismatch / v2 signatures claiming >= 3; (time, inputs) equal to the v3 stub's.",
+            "Numeric dotted versions; v3 without type is recorded, not judged.",
+            "DESIGN.md 4/C15"),
+    "C16": ("exploration",
+            "Hypothesis-generated controller/agent scenarios x schedules + enumerated schedules; trace oracle for "
+            "set_data delivery, ordering and refusal",
+            "Agents (local and in-memory remote) call set_data/get_data during their steps: every accepted value must "
+            "appear exactly once in the controller's next step, the controller must not begin a later step while an "
+            "agent's step is unfinished, calls without an async_requests connection must be refused with "
+            "ScenarioError and leave no effect.",
+            "Values returned by async get_data are not judged.",
+            "DESIGN.md 4/C16"),
 }
 
 NOT_YET = {}
